@@ -47,9 +47,15 @@ fn cut_after_ended(out: &[u8], ids: &[u16], n: usize) -> usize {
 }
 
 fn run_fault(c: &mut Case, case: &ConnCase, model: &[ReqModel], seed: u64, fault: Fault) -> Outcome {
+    run_fault_ext(c, case, model, seed, fault, false)
+}
+
+/// `sticky`: the fault keeps firing on every later call of that direction (the transport stays broken).
+fn run_fault_ext(c: &mut Case, case: &ConnCase, model: &[ReqModel], seed: u64, fault: Fault, sticky: bool) -> Outcome {
     let (mut w, _runner): (World, _) = conn::build_world(case, Rng::new(seed));
     {
         let mut p = w.pipe.lock().unwrap_or_else(std::sync::PoisonError::into_inner);
+        p.fault_sticky = sticky;
         match fault {
             Fault::None => {}
             Fault::EofAt(o) => p.eof_at = Some(o),
@@ -63,7 +69,7 @@ fn run_fault(c: &mut Case, case: &ConnCase, model: &[ReqModel], seed: u64, fault
         Err(p) => {
             // (the mock transport unwinds out of a poll when the task keeps calling it after EOF / an error)
             let sig = if p.starts_with("spin:") { "spin-after-fault".to_string() } else { crate::ev::panic_signature(&p) };
-            report(c, case, &w, &sig, format!("[{fault:?}] {p}"));
+            report(c, case, &w, &sig, format!("[{fault:?}{}] {p}", if sticky { " (sticky)" } else { "" }));
             return Outcome { read_calls: 0, write_calls: 0, ok: false };
         }
     };
@@ -73,7 +79,7 @@ fn run_fault(c: &mut Case, case: &ConnCase, model: &[ReqModel], seed: u64, fault
         (p.outbox.clone(), p.read_total, p.read_calls, p.write_calls, p.bytes_after_write_fault, p.write_fault_fired_at)
     };
     let oc = |ok| Outcome { read_calls, write_calls, ok };
-    let what = format!("{fault:?}");
+    let what = format!("{fault:?}{}", if sticky { " (sticky)" } else { "" });
     match end {
         End::Budget => {
             c.l.count("step_budget_exhausted");
@@ -249,7 +255,10 @@ fn run_fault(c: &mut Case, case: &ConnCase, model: &[ReqModel], seed: u64, fault
 }
 
 fn enumerate(c: &mut Case, scale: Scale) {
-    let mut case = conn::gen_conn(&mut c.rng, &GenOpts { max_requests: 3, extra_pct: 15, big: false, keep_conn_pct: 80, no_begin_extras: false });
+    // (half of the bases are dense in management records, so that replies are often still queued
+    // when a handler returns and Request::close has to flush them)
+    let extra_pct = if c.rng.chance(1, 2) { 15 } else { 45 };
+    let mut case = conn::gen_conn(&mut c.rng, &GenOpts { max_requests: 3, extra_pct, big: false, keep_conn_pct: 80, no_begin_extras: false });
     if case.wire.len() > 2500 {
         return;
     }
@@ -284,7 +293,16 @@ fn enumerate(c: &mut Case, scale: Scale) {
             c.l.count("eof_offsets");
         }
         // read error at every read call index
-        let kinds = [ErrorKind::BrokenPipe, ErrorKind::ConnectionReset, ErrorKind::TimedOut, ErrorKind::Other];
+        let kinds = [
+            ErrorKind::BrokenPipe,
+            ErrorKind::ConnectionReset,
+            ErrorKind::TimedOut,
+            ErrorKind::Other,
+            ErrorKind::Interrupted,
+            ErrorKind::UnexpectedEof,
+            ErrorKind::InvalidData,
+            ErrorKind::ConnectionAborted,
+        ];
         let rstep = (clean.read_calls / 400).max(1) * step as u64;
         let mut i = 1;
         while i <= clean.read_calls + 1 {
@@ -292,7 +310,14 @@ fn enumerate(c: &mut Case, scale: Scale) {
             if !run_fault(c, &cs, &model, seed, Fault::ReadErr(i, k)).ok {
                 return;
             }
+            if i % 3 == 0 {
+                if !run_fault_ext(c, &cs, &model, seed, Fault::ReadErr(i, k), true).ok {
+                    return;
+                }
+                c.l.count("sticky_fault_points");
+            }
             c.l.count("read_error_points");
+            c.l.count(&format!("read_error_kind_{k:?}"));
             i += rstep;
         }
         // write error / zero-length write at every write call index
@@ -301,6 +326,13 @@ fn enumerate(c: &mut Case, scale: Scale) {
         while j <= clean.write_calls + 1 {
             let k = kinds[(j as usize) % kinds.len()];
             if !run_fault(c, &cs, &model, seed, Fault::WriteErr(j, k)).ok || !run_fault(c, &cs, &model, seed, Fault::WriteZero(j)).ok {
+                return;
+            }
+            if !run_fault_ext(c, &cs, &model, seed, Fault::WriteZero(j), true).ok {
+                return;
+            }
+            c.l.count("sticky_fault_points");
+            if j % 3 == 0 && !run_fault_ext(c, &cs, &model, seed, Fault::WriteErr(j, k), true).ok {
                 return;
             }
             c.l.count("write_fault_points");
@@ -313,12 +345,14 @@ fn enumerate(c: &mut Case, scale: Scale) {
 pub fn run(ctx: &Ctx, evidence: Option<&PathBuf>) -> i32 {
     let scale = ctx.scale;
     ctx.run_fixed("directed", if ctx.miri() { 1 } else { ctx.dn(32) }, |c| enumerate(c, scale));
-    let n = ctx.size3(64, 6_400, 1);
+    let n = ctx.size3(200, 10_000, 1);
     ctx.run_cases("fault-points", n, |c| enumerate(c, scale));
     ctx.gate("eof_offsets", 5_000);
     ctx.gate("read_error_points", 500);
     ctx.gate("write_fault_points", 500);
     ctx.gate("write_faults_fired", 300);
+    ctx.gate("sticky_fault_points", 200);
+    ctx.gate("read_error_kind_Interrupted", 50);
     ctx.gate("faults_hitting_a_running_handler", 300);
     ctx.gate("faults_between_requests_or_in_preamble", 300);
     ctx.gate("handler_saw_UnexpectedEof", 100);
